@@ -138,6 +138,33 @@ def arc_case(ck, c):
             return
 
 
+def small_arc_case(ck, c):
+    """radii too small for the chord: the arc is the half ellipse with the minimally enlarged radii of ArcLattice.tla - curvature from *those* radii"""
+    A, S = c['arc'], c['small']
+    if A.get('near'):
+        return
+    h = float(A['h'])
+    rt = am.rot(A['phi'])
+    cen = complex(*A['c'])
+    start, end = (cen + rt * complex(-h, 0), cen + rt * complex(h, 0)) if A['ax'] == 'x' else (cen + rt * complex(0, -h), cen + rt * complex(0, h))
+    rx, ry = S['num'][0] / float(S['den']), S['num'][1] / float(S['den'])
+    ck.case(fp=('small-arc', str(A)), nontrivial=True)
+    k_ends, k_mid = (rx / ry ** 2, ry / rx ** 2) if A['ax'] == 'x' else (ry / rx ** 2, rx / ry ** 2)
+    try:
+        arc = sp.Arc(start, complex(*A['r']), 15.0 * A['phi'], bool(A['fa']), bool(A['fs']), end)
+        got = [arc.curvature(0), arc.curvature(0.5), arc.curvature(1)]
+        sc = arc.scaled(3.0).curvature(0.5) if rx == ry else None
+    except Exception as e:      # noqa
+        ck.disagree(key='Arc.curvature/small-radii/raises-' + type(e).__name__, site='svgpathtools/path.py:Arc.curvature', what='arc with too-small radii %s raised %r' % (A, e),
+                    case={'arc': A}, expected='value', observed=repr(e), driver='arc')
+        return
+    exp = [k_ends, k_mid, k_ends]
+    if any(not (abs(g - e_) <= 1e-6 * e_) for g, e_ in zip(got, exp)) or (sc is not None and not (abs(sc - k_mid / 3.0) <= 1e-6 * k_mid)):
+        ck.disagree(key='Arc.curvature/radii-enlarged-to-fit' + ('/circle' if rx == ry else ''), site='svgpathtools/path.py:Arc.curvature',
+                    what='arc with given radii %s enlarged to (%r, %r): curvature at 0, 1/2, 1 = %r, exact %r; scaled by 3: %r' % (A['r'], rx, ry, got, exp, sc),
+                    case={'arc': A}, expected=exp, observed=got, driver='arc')
+
+
 def run(ck):
     rnd = random.Random(ck.seed)
     quick = ck.tier == 'quick'
@@ -171,6 +198,8 @@ def run(ck):
             st['n'] += 1
             if st['n'] % (5 if quick else 1) == 0:
                 arc_case(ck, c)
+        else:
+            small_arc_case(ck, c)
     ck.tlc('ArcLattice', open(pm.__file__.rsplit('/', 2)[0] + '/spec/ArcLattice_MC.cfg').read().replace('DlsAll', 'DlsSome'), need_actions=['Advance'], timeout=3000)
     d = ('SPECIFICATION Spec\nCONSTANTS Radii <- RadiiA\n Phis <- PhisA\n Ths <- ThsAll\n Dls <- DlsSome\n Centers <- CentersB\n SmallH <- SmallA\n SmallR <- SmallRA\n'
          'CONSTRAINT AtStart\nINVARIANT Dump\n')
